@@ -8,5 +8,6 @@ coq/build.sh
 eval/build.sh
 [ -f harness/Cargo.lock ] || cp /repo/Cargo.lock harness/Cargo.lock
 python3 gen/litgen.py >/dev/null
-(cd harness && RUSTFLAGS="--cfg arr_rs_verif -Awarnings" cargo build --offline --quiet --bin arr-rs-verif-harness --bin arr-rs-verif-lit)
+python3 tools/inventory.py >/dev/null
+(cd harness && RUSTFLAGS="--cfg arr_rs_verif -Awarnings" cargo build --offline --quiet --bin arr-rs-verif-harness --bin arr-rs-verif-lit --bin arr-rs-verif-prop)
 echo setup-ok
